@@ -5,6 +5,7 @@ import (
 	"fmt"
 	"net/http"
 	"net/http/httptest"
+	"os"
 	"strings"
 	"sync"
 	"testing"
@@ -238,7 +239,7 @@ func execClient(h CH, rec *pbt.Rec) error {
 		return -1
 	}
 	nt, fault := false, false
-	sinceMove := -1  // insertions attempted since the leader last moved (-1: never moved)
+	sinceMove := -1   // insertions attempted since the leader last moved (-1: never moved)
 	stableWrites := 0 // consecutive insertion attempts since the cluster state last changed, all servers answering
 	for ai, a := range h.Acts {
 		switch a.Op {
@@ -318,6 +319,11 @@ func execClient(h CH, rec *pbt.Rec) error {
 		}
 		took := time.Since(start)
 		after := believed()
+		if os.Getenv("VERIF_C20_TRACE") != "" {
+			c.mu.Lock()
+			fmt.Fprintf(os.Stderr, "act %d %s: leader=%d modes=%v believed %d -> %d (held dead before: %v) err=%v requests=%+v\n", ai, a.Op, leader, c.mode, idx(before), idx(after), primaryHeldDead, callErr, c.log)
+			c.mu.Unlock()
+		}
 		viewsAfter := map[int]view{}
 		for _, e := range top.Endpoints() {
 			viewsAfter[idx(e.URL())] = view{e.IsDead(), e.IsPrimary()}
@@ -378,13 +384,24 @@ func execClient(h CH, rec *pbt.Rec) error {
 			// find the leader by its third insertion attempt, through discovery when it is
 			// enabled, or through the redirect of the node it believes to be the leader
 			// (which answers, unless the client holds it dead and has nothing to re-check it with).
-			if allOK {
+			// An attempt made while the client holds its primary dead and has neither
+			// discovery nor health checks to re-check it sends nothing and learns nothing:
+			// it does not count (a later read may revive the endpoints, and only then does
+			// the client get its first redirect).
+			if allOK && (h.Discovery || !primaryHeldDead) {
 				stableWrites++
 			} else {
 				stableWrites = 0
 			}
 			if callErr != nil && allOK && stableWrites >= 3 && (h.Discovery || !primaryHeldDead) {
-				return fmt.Errorf("%s: every server has been answering for %d consecutive insertion attempts and nothing changed meanwhile, yet the client still does not reach the leader: %v", tag, stableWrites, callErr)
+				c.mu.Lock()
+				tail := c.log
+				if len(tail) > 8 {
+					tail = tail[len(tail)-8:]
+				}
+				hits := fmt.Sprintf("%+v", tail)
+				c.mu.Unlock()
+				return fmt.Errorf("%s: every server has been answering for %d consecutive insertion attempts and nothing changed meanwhile, yet the client still does not reach the leader: %v (last requests seen by the servers: %s)", tag, stableWrites, callErr, hits)
 			}
 		}
 		if callErr == nil && fault && leaderOK {
